@@ -2,54 +2,165 @@
 
 // Contracts for the rosvc verification-condition generator (/verif). This file is comments only: it is compiled
 // only under the build tag `verif` and contains no declarations, so it cannot change the behaviour of the package.
-// Syntax: see /verif/DESIGN.md section 2.5.
+// Syntax: see /verif/DESIGN.md section 2.5. Clause tags: [Properties:obligation-name].
 
 package rosmar
+
+// ---------------------------------------------------------------------------------------------------------------
+// Specification vocabulary (transcribed from the property statements, DESIGN.md appendix E)
+
+//@ spec DocInv(r) = !r.present || ((r.tombstone == 1 <==> isnull(r.value)) && (r.tombstone == 0 || r.tombstone == 1) && r.rev >= 1 && r.cas >= 0 && r.exp >= 0 && r.exp <= 4294967295)
+//@ spec hasBody(r) = r.present && !isnull(r.value)
+//@ spec nextrev(r) = if r.present then r.rev + 1 else 1
+//@ spec sameDoc(a, b) = a.present == b.present && a.value == b.value && a.cas == b.cas && a.exp == b.exp && a.xattrs == b.xattrs && a.isJSON == b.isJSON && a.tombstone == b.tombstone && a.rev == b.rev
+//@ spec BODY(r, b, j, e, cas) = Row{present: true, rowid: r.rowid, value: b, cas: cas, exp: e, xattrs: (if hasBody(r) then r.xattrs else NULL), isJSON: j, tombstone: 0, rev: nextrev(r)}
+//@ spec eventOf(k, r) = Event{key: k, value: r.value, isDeletion: isnull(r.value), isJSON: r.isJSON != 0, xattrs: r.xattrs, cas: r.cas, exp: r.exp, rev: r.rev}
+//@ spec HlcInv(r) = r.present ==> r.cas <= hlc.highestTime
+//@ spec IntOK(r) = r.rev < 4611686018427387904 && hlc.highestTime < 9223372036854775807
+
+// Generic clauses of every mutating entry point (G1..G8 of DESIGN.md 2.5). `r`/`r2` are the addressed row before/after.
+//@ template mutator
+//@   ensures [C01:$fn.err-unchanged]   err != nil ==> db == old(db)
+//@   ensures [C08:$fn.err-noevent]     err != nil ==> lenlist(posted) == 0
+//@   ensures [C05:$fn.docinv]          DocInv(r2)
+//@   ensures [C11:$fn.frame]           forall o: DocId :: o != mkId(c.id, key) ==> docAt(o) == old(docAt(o))
+//@   ensures [C11:$fn.scoped]          stmtsScoped(c.id)
+//@   ensures [C03,C10:$fn.onetxn]      oneTxn() && sqlAllInTxn() && lockedThroughout("c.bucket.mutex")
+//@   ensures [C10:$fn.commit-first]    err == nil && db != old(db) ==> committed
+//@   ensures [C04:$fn.cas-fresh]       r2 != r ==> r2.cas == newCas && newCas > old(hlc.highestTime) && casDrawnInTxn()
+//@   ensures [C04,C10,C12:$fn.lastcas] r2 != r ==> bucketLastCas == newCas && collLast(c.id) == newCas
+//@   ensures [C17:$fn.rev]             r2 != r ==> r2.rev == nextrev(r)
+//@   ensures [C08:$fn.event]           err == nil && r2 != r ==> lenlist(posted) == 1 && posted[0] == eventOf(key, r2) && postsAfterCommit()
+//@   ensures [C08:$fn.noevent]         r2 == r ==> lenlist(posted) == 0
+//@   ensures [C20:$fn.unlocked]        any: nolocks()
+//@ end
+
+// ---------------------------------------------------------------------------------------------------------------
+// hlc.go
 
 //@ fn (*HybridLogicalClock).Now
 //@   requires c.highestTime < 18446744073709551615
 //@   ensures [C04:hlc.now.increasing] result > old(c.highestTime)
 //@   ensures [C04:hlc.now.recorded]   c.highestTime == result
 //@   ensures [C04:hlc.now.physical]   result >= clockdraw[0] - clockdraw[0] % 65536
-//@   ensures [C04:hlc.now.unlocked]   nolocks()
+//@   ensures [C04,C20:hlc.now.unlocked] any: nolocks()
 //@   mustfail [C04:stalled] result == clockdraw[0] - clockdraw[0] % 65536
 //@
 //@ fn (*HybridLogicalClock).updateLatestTime
 //@   ensures [C04:hlc.update.max] c.highestTime == max(old(c.highestTime), lastTime)
-//@   ensures [C04:hlc.update.unlocked] nolocks()
-//@
-//@ spec DocInv(r) = !r.present || ((r.tombstone == 1 <==> isnull(r.value)) && (r.tombstone == 0 || r.tombstone == 1) && r.rev >= 1 && r.cas >= 0 && r.exp >= 0 && r.exp <= 4294967295 && r.rev < 9223372036854775807)
-//@ spec hasBody(r) = r.present && !isnull(r.value)
-//@ spec nextrev(r) = if r.present then r.rev + 1 else 1
-//@
+//@   ensures [C04,C20:hlc.update.unlocked] any: nolocks()
+
+// ---------------------------------------------------------------------------------------------------------------
+// collection.go: reads
+
 //@ fn (*Collection).getRaw
 //@   variant tx q=tx
 //@   variant pool q=pool
 //@   let r = old(doc(c.id, key))
 //@   requires DocInv(r)
 //@   ensures [C01:getRaw.live]    hasBody(r) && err == nil ==> val == r.value && cas == r.cas && revSeqNo == r.rev
-//@   ensures [C01:getRaw.missing] !hasBody(r) ==> err != nil && (ismissing(err) || isdberr(err))
+//@   ensures [C01,C05:getRaw.missing] !hasBody(r) ==> err != nil && (ismissing(err) || isdberr(err))
 //@   ensures [C01:getRaw.nomiss]  hasBody(r) ==> !ismissing(err)
-//@   ensures [C01:getRaw.frame]   db == old(db)
+//@   ensures [C01,C11:getRaw.frame]   db == old(db) && stmtsScoped(c.id)
 //@   mustfail [C01:getRaw.found]  err != nil
 //@
+//@ fn (*Collection).exists
+//@   variant tx q=tx
+//@   variant pool q=pool
+//@   let r = old(doc(c.id, key))
+//@   requires DocInv(r)
+//@   ensures [C01,C05:exists.iff]  err == nil ==> (exists <==> hasBody(r))
+//@   ensures [C01,C11:exists.frame] db == old(db) && stmtsScoped(c.id)
+//@
+//@ fn (*Collection).GetExpiry
+//@   let r = old(doc(c.id, key))
+//@   requires DocInv(r)
+//@   ensures [C01,C14:GetExpiry.live]    hasBody(r) && err == nil ==> exp == r.exp
+//@   ensures [C01:GetExpiry.missing] !hasBody(r) ==> err != nil
+//@   ensures [C01,C11:GetExpiry.frame]   db == old(db) && stmtsScoped(c.id)
+
+// ---------------------------------------------------------------------------------------------------------------
+// collection.go: writers
+
 //@ fn (*Collection).add
 //@   let r = old(doc(c.id, key))
 //@   let r2 = doc(c.id, key)
-//@   requires DocInv(r)
+//@   requires DocInv(r) && HlcInv(r)
 //@   requires !isnull(val)
-//@   ensures [C06:add.refuse] err == nil && hasBody(r) ==> !added && docs == old(docs)
-//@   ensures [C06:add.create] err == nil && !hasBody(r) ==> added && hasBody(r2) && r2.value == val && r2.cas == newCas
-//@   ensures [C05:add.docinv] DocInv(r2)
-//@   ensures [C01:add.error]  err != nil ==> db == old(db)
-//@   ensures [C17:add.rev]    err == nil && added ==> r2.rev == nextrev(r)
+//@   requires IntOK(r)
+//@   use mutator
+//@   ensures [C06:add.iff]      err == nil ==> (added <==> !hasBody(r))
+//@   ensures [C06:add.refused]  err == nil && !added ==> docs == old(docs)
+//@   ensures [C01,C06,C14:add.created] err == nil && added ==> sameDoc(r2, BODY(r, val, b2i(isJSON), absexp(exp, now), newCas))
 //@   mustfail [C06:add.mf]    added
 //@
 //@ fn (*Collection).set
 //@   let r = old(doc(c.id, key))
 //@   let r2 = doc(c.id, key)
-//@   requires DocInv(r)
-//@   ensures [C05:set.docinv] DocInv(r2)
-//@   ensures [C01:set.error]  err != nil ==> db == old(db)
-//@   ensures [C01:set.stored] err == nil ==> r2.present && r2.value == val && r2.cas == newCas
-//@   ensures [C17:set.rev]    err == nil ==> r2.rev == nextrev(r)
+//@   let keep = opts != nil && opts.PreserveExpiry && r.present
+//@   requires DocInv(r) && HlcInv(r)
+//@   requires IntOK(r)
+//@   use mutator
+//@   ensures [C01,C14:set.stored] err == nil ==> sameDoc(r2, BODY(r, val, b2i(isJSON), (if keep then r.exp else absexp(exp, now)), newCas))
+//@
+//@ fn (*Collection).remove
+//@   let r = old(doc(c.id, key))
+//@   let r2 = doc(c.id, key)
+//@   requires DocInv(r) && HlcInv(r)
+//@   requires IntOK(r)
+//@   use mutator
+//@   ensures [C02:remove.necessary] err == nil ==> r.present && (ifCas == nil || *ifCas == r.cas)
+//@   ensures [C02:remove.rejected]  ifCas != nil && r.present && *ifCas != r.cas ==> err != nil && db == old(db) && (iscasmismatch(err) || isdberr(err) || isclosed(err))
+//@   ensures [C01,C05,C14:remove.tombstone] err == nil ==> r2.present && isnull(r2.value) && r2.tombstone == 1 && r2.exp == 0 && r2.isJSON == 0 && r2.cas == newCas && casOut == newCas
+//@   ensures [C01:remove.missing]   !r.present ==> err != nil
+//@
+//@ fn (*Collection).GetAndTouchRaw
+//@   let r = old(doc(c.id, key))
+//@   let r2 = doc(c.id, key)
+//@   requires DocInv(r) && HlcInv(r)
+//@   requires IntOK(r)
+//@   ensures [C01:touch.err-unchanged]  err != nil ==> db == old(db)
+//@   ensures [C08:touch.noevent]        lenlist(posted) == 0
+//@   ensures [C05:touch.docinv]         DocInv(r2)
+//@   ensures [C11,C14,C17:touch.frame]  forall o: DocId :: o != mkId(c.id, key) ==> docAt(o) == old(docAt(o))
+//@   ensures [C11:touch.scoped]         stmtsScoped(c.id)
+//@   ensures [C03,C10:touch.onetxn]     oneTxn() && sqlAllInTxn() && lockedThroughout("c.bucket.mutex")
+//@   ensures [C01,C14,C17:touch.effect] err == nil ==> hasBody(r) && val == r.value && cas == r.cas && r2 == (r with {exp: absexp(exp, now), rev: r.rev + 1})
+//@   ensures [C01:touch.missing]        !hasBody(r) ==> err != nil
+//@   ensures [C20:touch.unlocked]       any: nolocks()
+//@
+//@ fn (*Collection).Incr
+//@   let r = old(doc(c.id, key))
+//@   let r2 = doc(c.id, key)
+//@   requires DocInv(r) && HlcInv(r)
+//@   requires IntOK(r)
+//@   use mutator
+//@   ensures [C01,C14:incr.stored] err == nil ==> r2.present && !isnull(r2.value) && r2.isJSON == 1 && r2.tombstone == 0 && r2.exp == absexp(exp, now) && r2.cas == newCas
+//@   ensures [C03:incr.default]    err == nil && !hasBody(r) ==> result == deflt
+//@   ensures [C07:incr.xattrs]     err == nil ==> r2.xattrs == (if hasBody(r) then r.xattrs else NULL)
+//@
+//@ spec wcInsert(opt, cas) = !bit(opt, 16) && (bit(opt, 2) || cas == 0)
+//@ spec wcJSON(opt, raw) = if isnull(raw) then 0 else (if !bit(opt, 1) && !bit(opt, 16) then 1 else 0)
+//@
+//@ fn (*Collection).WriteCas
+//@   variant bytes val=bytes
+//@   variant nil val=nil
+//@   variant json val=json
+//@   let r = old(doc(c.id, key))
+//@   let r2 = doc(c.id, key)
+//@   let raw = rawof(val)
+//@   let ins = wcInsert(opt, cas)
+//@   requires DocInv(r) && HlcInv(r)
+//@   requires IntOK(r)
+//@   requires opt >= 0 && opt < 32
+//@   use mutator
+//@   ensures [C02:WriteCas.cas-necessary]  err == nil && !ins ==> r.present && cas == r.cas
+//@   ensures [C02:WriteCas.cas-rejected]   !ins && r.present && cas != r.cas ==> err != nil && db == old(db) && (iscasmismatch(err) || isdberr(err) || isclosed(err) || istoobig(err) || issentinel(err, "json.MarshalError") || issentinel(err, "raw value must be"))
+//@   ensures [C02:WriteCas.cas-actual]     iscasmismatch(err) ==> err.Actual == r.cas && err.Expected == cas
+//@   ensures [C06:WriteCas.insert-only-if] err == nil && ins ==> !hasBody(r)
+//@   ensures [C06:WriteCas.insert-refused] ins && hasBody(r) ==> err != nil && db == old(db)
+//@   ensures [C06:WriteCas.insert-creates] ins && !hasBody(r) && !(bit(opt, 2) && cas != 0 && !r.present) ==> err == nil || isdberr(err) || isclosed(err) || istoobig(err) || issentinel(err, "json.MarshalError") || issentinel(err, "raw value must be")
+//@   ensures [C01,C05,C07,C14:WriteCas.body-stored] err == nil && !bit(opt, 16) && !isnull(raw) ==> sameDoc(r2, BODY(r, raw, wcJSON(opt, raw), absexp(exp, now), newCas))
+//@   ensures [C01,C05:WriteCas.delete]     err == nil && !bit(opt, 16) && isnull(raw) && r.present ==> isnull(r2.value) && r2.tombstone == 1 && r2.cas == newCas
+//@   ensures [C01,C07:WriteCas.append]     err == nil && bit(opt, 16) && hasBody(r) && !isnull(raw) ==> r2.value == concat(r.value, raw) && r2.xattrs == r.xattrs && r2.exp == absexp(exp, now) && r2.tombstone == 0
+//@   ensures [C01:WriteCas.casout]         err == nil ==> casOut == newCas
